@@ -3,7 +3,7 @@
 // is(DOUBLE) / is(HYBRID) / is_clock(), constant values, the frames) -- as one S-expression per model.
 // The Lean driver (lean/UtapModel/Drv/C17.lean) recomputes the verdict and the declarative Spec from that dump.
 //
-// protocol: stdin lines  `M <hex of XML text>`  ->  stdout  `R <sym> <sto> <con> <nerr> <exc> <abstract doc>`
+// protocol: stdin lines  `M <hex of XML text>` | `X <hex of XTA text>`  ->  stdout  `R <sym> <sto> <con> <nerr> <exc> <abstract doc>`
 #include "common.hpp"
 
 using namespace vh;
@@ -107,7 +107,7 @@ int main(int argc, char** argv)
 {
     std::string line;
     while (std::getline(std::cin, line)) {
-        if (line.size() < 2 || line[0] != 'M') {
+        if (line.size() < 2 || (line[0] != 'M' && line[0] != 'X')) {
             std::cout << "bad-op" << std::endl;
             continue;
         }
@@ -115,7 +115,8 @@ int main(int argc, char** argv)
         Document doc;
         std::string exc = "none";
         try {
-            parse_XML_buffer(xml.c_str(), &doc, true);
+            if (line[0] == 'M') parse_XML_buffer(xml.c_str(), &doc, true);
+            else parse_XTA(xml.c_str(), &doc, true);   // the same model as XTA text
         } catch (std::bad_variant_access&) {
             exc = "bad_variant_access";
         } catch (std::exception& e) {
